@@ -6,6 +6,7 @@ import (
 	"go/parser"
 	"go/token"
 	"go/types"
+	"strings"
 
 	"golang.org/x/tools/go/ssa"
 	"golang.org/x/tools/go/ssa/ssautil"
@@ -412,6 +413,12 @@ func c18PrecedenceIn(c *Ctx, sp routeLookupSpec) {
 						tested = strip(b)
 					}
 				}
+				// or the entry's own expression, compiled once from that entry's pattern where the entry is built
+				if tested == nil && strings.HasSuffix(w.calleeName(match), "regexp.Regexp).MatchString") {
+					if ref, base := loadedField(match.Call.Args[0]); strings.HasPrefix(ref, "PreRouteItem.") && c18CompiledFromDest(w, ref) {
+						tested = strip(base)
+					}
+				}
 				okItem := tested != nil && itemFieldsOf(w, r, func(v ssa.Value) bool { return strip(v) == tested })
 				c.check(okItem, rule, L+"/scan-hit-result", w.ipos(r), "the entry whose pattern matched is returned", "the scan hit does not return protocol/host/port of the very entry whose pattern was matched")
 			}
@@ -686,4 +693,34 @@ func c18Wiring(c *Ctx, rule string) {
 		}
 	}
 	c.check(good && n == 1, rule, "createPreConfigRoute/as-configured", w.pos(f.Pos()), "AddRouteItem(entry.Protocol, each entry.Dests element, entry.NextHop)", "createPreConfigRoute does not pass the configured protocol, destination and next hop to AddRouteItem unmodified ("+why+")")
+}
+
+// c18CompiledFromDest: every store to the field ref in the package puts there the first result of regexp.Compile /
+// MustCompile applied to translator(x), where x is what the same function stores into PreRouteItem.dest of the same
+// object.
+func c18CompiledFromDest(w *World, ref string) bool {
+	n := 0
+	for _, fn := range w.All {
+		for _, st := range w.fieldStores(fn, ref) {
+			n++
+			cc, idx := callOfResult(st.Val)
+			if cc == nil || idx != 0 || (w.calleeName(cc) != "regexp.Compile" && w.calleeName(cc) != "regexp.MustCompile") {
+				return false
+			}
+			tc, _ := callOfResult(cc.Common().Args[0])
+			if tc == nil || !strings.HasSuffix(w.calleeName(tc), "toRegularExp") {
+				return false
+			}
+			same := false
+			for _, ds := range w.fieldStores(fn, "PreRouteItem.dest") {
+				if strip(ds.Val) == strip(callArg(tc, 0)) && ds.Addr.(*ssa.FieldAddr).X == st.Addr.(*ssa.FieldAddr).X {
+					same = true
+				}
+			}
+			if !same {
+				return false
+			}
+		}
+	}
+	return n > 0
 }
